@@ -438,7 +438,16 @@ def macro_graph(edges, honest, par):
     state key to a list of (act, [successor keys]) and states maps keys to full states."""
     states = {}
     out = {}
+
+    def norm(st):
+        # TLC prints sets as arrays in no particular order
+        for f in ("known", "round", "seen"):
+            for n in st[f]:
+                st[f][n] = sorted(st[f][n])
+        st["banned"] = sorted(st["banned"])
+        return st
     for e in edges:
+        norm(e["from"]); norm(e["to"])
         kf, kt = vlib.canon(e["from"]), vlib.canon(e["to"])
         states[kf] = e["from"]; states[kt] = e["to"]
         if kf == kt:
@@ -580,8 +589,10 @@ def leg_r(wd, tier, binary, verdict, family="honest", stub=None):
     honest = {"v", "p", "q"} if family == "honest" else {"v", "p"}
     r = vlib.run_tlc(wd, "MCSync", cfg, workers=1, timeout=900, tag="edges_" + family)
     vlib.tlc_must_pass(r, "Sync edge export (%s)" % family)
-    nst, ned = vlib.graph_stats(r.edges)
     inits, start, medges, states = macro_graph(r.edges, honest, TREES["C" if family == "honest" else "B"])
+    nst, ned = vlib.graph_stats(r.edges)
+    if nst != r.distinct:
+        raise vlib.Infra("edge export: %d states reconstructed, TLC reports %d" % (nst, r.distinct))
     rng = random.Random(vlib.seed() + (11 if family == "honest" else 12))
     maxp = (14 if tier == "quick" else 300) if family == "byz" else None
     paths, covered, nmacro = macro_paths(inits, start, medges, states, rng, maxp)
